@@ -220,7 +220,7 @@ def run(chk, scratch):
             o = pipeline.Outputs(out)
             recs = defaultdict(set)
             for a in o.assignments():
-                recs[a.read_id].add((a.chr, tuple(a.exons), a.isoform, a.atype))
+                recs[a.read_id].add((a.chr, tuple(a.exons), a.isoform, a.atype + "/gene:" + str(a.info.get("gene_assignment", "?"))))
             # the resolver's verdict is what the outputs show: every printed record lies on a retained alignment, every retained
             # alignment that carries an assignment is printed (alignments of one read on ONE chromosome are told apart by position)
             for rid, after in verdict.items():
@@ -264,10 +264,17 @@ def run(chk, scratch):
                     compared += 1
                     a = set((c, e, i) for c, e, i, t in base[0].get(rid, ()))
                     b = set((c, e, i) for c, e, i, t in recs.get(rid, ()))
+                    kind = "memory-mode" if "high-memory" in name and "reordered" not in name else "chromosome-order"
                     if a != b:
-                        kind = "memory-mode" if "high-memory" in name and "reordered" not in name else "chromosome-order"
                         chk.violation("retained-alignments-depend-on-%s" % kind,
                                       "world=%d: read %s retained %s in v0 but %s in %s" % (seed, rid, sorted(a)[:3], sorted(b)[:3], name),
+                                      {"world_seed": seed, "variant": name, "read": rid})
+                    elif set(base[0].get(rid, ())) != set(recs.get(rid, ())):
+                        # same alignments retained, but flagged differently (unique / ambiguous)
+                        ta = sorted(set(t for c, e, i, t in base[0].get(rid, ())))
+                        tb = sorted(set(t for c, e, i, t in recs.get(rid, ())))
+                        chk.violation("assignment-flags-depend-on-%s" % kind,
+                                      "world=%d: read %s keeps the same alignments but is flagged %s in v0 and %s in %s" % (seed, rid, ta, tb, name),
                                       {"world_seed": seed, "variant": name, "read": rid})
     chk.extra.update({"pipeline_resolutions_judged": logged, "reads_compared_across_orders": compared})
     chk.assumptions = ["the oracle states only what the property states: nothing about penalties or about which of several inconsistent / uninformative "
